@@ -196,21 +196,26 @@ def rankdef_conelp(rng, first=False):
                    n=n, p=0, N=2 * m, P=None, wit={})
 
 def rank_of(rows):
-    """rank of a list of rows (exact enough: small integers)"""
-    from fractions import Fraction
-    M = [[Fraction(x) for x in r] for r in rows]
+    """numerical rank of a list of rows: Gaussian elimination with complete pivoting, pivots below 1e-9 * the largest entry count as
+    zero (exact for the small-integer data; the projected pinf / dinf instances have rounded entries, for which an exact rational rank
+    would call a numerically singular matrix regular)"""
+    M = [[float(x) for x in r] for r in rows]
+    if not M or not M[0]: return 0
+    scale = max(abs(x) for r in M for x in r) or 1.0
     rk = 0
-    ncol = len(M[0]) if M else 0
-    for cidx in range(ncol):
-        piv = None
-        for r in range(rk, len(M)):
-            if M[r][cidx] != 0: piv = r; break
-        if piv is None: continue
-        M[rk], M[piv] = M[piv], M[rk]
-        for r in range(len(M)):
-            if r != rk and M[r][cidx] != 0:
-                f = M[r][cidx] / M[rk][cidx]
-                M[r] = [a - f * b for a, b in zip(M[r], M[rk])]
+    nrow, ncol = len(M), len(M[0])
+    cols = list(range(ncol))
+    while rk < min(nrow, ncol):
+        best, bi, bj = 0.0, None, None
+        for r in range(rk, nrow):
+            for cidx in range(rk, ncol):
+                if abs(M[r][cidx]) > best: best, bi, bj = abs(M[r][cidx]), r, cidx
+        if bi is None or best <= 1e-9 * scale: break
+        M[rk], M[bi] = M[bi], M[rk]
+        for r in range(nrow): M[r][rk], M[r][bj] = M[r][bj], M[r][rk]
+        for r in range(rk + 1, nrow):
+            f = M[r][rk] / M[rk][rk]
+            if f: M[r] = [a - f * b for a, b in zip(M[r], M[rk])]
         rk += 1
     return rk
 def rank_cols(G, A):
